@@ -635,38 +635,43 @@ var carrierKinds = []string{"json", "int", "int8", "int16", "int32", "int64", "u
 // hostile carriers (property C03): Go values a caller may put into the data
 // that are not JSON numbers at all, or not finite ones.
 var hostileKinds = map[string]func() any{
-	"nan":        func() any { return math.NaN() },
-	"+inf":       func() any { return math.Inf(1) },
-	"-inf":       func() any { return math.Inf(-1) },
-	"f32nan":     func() any { return float32(math.NaN()) },
-	"f32inf":     func() any { return float32(math.Inf(1)) },
-	"decnan":     func() any { return decimal128.NaN() },
-	"decinf":     func() any { return decimal128.Inf(1) },
-	"decneginf":  func() any { return decimal128.Inf(-1) },
-	"jsonempty":  func() any { return json.Number("") },
-	"jsonabc":    func() any { return json.Number("abc") },
-	"jsonhuge":   func() any { return json.Number("1e999999999") },
-	"jsontiny":   func() any { return json.Number("-1e-999999999") },
-	"jsonminus":  func() any { return json.Number("-") },
-	"jsonhex":    func() any { return json.Number("0x10") },
-	"typedslice": func() any { return []int{1, 2} },
-	"typedmap":   func() any { return map[string]int{"a": 1} },
-	"anymapkey":  func() any { return map[any]any{1: 2} },
-	"struct":     func() any { return struct{ A int }{1} },
-	"chan":       func() any { return make(chan int) },
-	"nilptr":     func() any { var p *int; return p },
-	"func":       func() any { return func() {} },
-	"complex":    func() any { return complex(1, 2) },
-	"uintptr":    func() any { return uintptr(7) },
-	"int64min":   func() any { return int64(math.MinInt64) },
-	"uint64max":  func() any { return uint64(math.MaxUint64) },
-	"f64big":     func() any { return float64(1 << 63) },
-	"f64max":     func() any { return math.MaxFloat64 },
-	"bytes":      func() any { return []byte("ab") },
-	"rune":       func() any { return 'x' },
-	"nilslice":   func() any { var s []any; return s },
-	"nilmap":     func() any { var m map[string]any; return m },
-	"badutf8":    func() any { return "a\xffb" },
+	"nan":         func() any { return math.NaN() },
+	"+inf":        func() any { return math.Inf(1) },
+	"-inf":        func() any { return math.Inf(-1) },
+	"f32nan":      func() any { return float32(math.NaN()) },
+	"f32inf":      func() any { return float32(math.Inf(1)) },
+	"decnan":      func() any { return decimal128.NaN() },
+	"decinf":      func() any { return decimal128.Inf(1) },
+	"decneginf":   func() any { return decimal128.Inf(-1) },
+	"jsonempty":   func() any { return json.Number("") },
+	"jsonabc":     func() any { return json.Number("abc") },
+	"jsonhuge":    func() any { return json.Number("1e999999999") },
+	"jsontiny":    func() any { return json.Number("-1e-999999999") },
+	"jsonminus":   func() any { return json.Number("-") },
+	"jsonhex":     func() any { return json.Number("0x10") },
+	"typedslice":  func() any { return []int{1, 2} },
+	"typedmap":    func() any { return map[string]int{"a": 1} },
+	"anymapkey":   func() any { return map[any]any{1: 2} },
+	"struct":      func() any { return struct{ A int }{1} },
+	"chan":        func() any { return make(chan int) },
+	"nilptr":      func() any { var p *int; return p },
+	"func":        func() any { return func() {} },
+	"complex":     func() any { return complex(1, 2) },
+	"uintptr":     func() any { return uintptr(7) },
+	"int64min":    func() any { return int64(math.MinInt64) },
+	"uint64max":   func() any { return uint64(math.MaxUint64) },
+	"f64big":      func() any { return float64(1 << 63) },
+	"f64max":      func() any { return math.MaxFloat64 },
+	"bytes":       func() any { return []byte("ab") },
+	"rune":        func() any { return 'x' },
+	"nilslice":    func() any { var s []any; return s },
+	"nilmap":      func() any { var m map[string]any; return m },
+	"badutf8":     func() any { return "a\xffb" },
+	"contbytes":   func() any { return strings.Repeat("\x80\xbf", 20) }, // continuation bytes only
+	"badutf8long": func() any { return strings.Repeat("\xff", 100) },
+	"longstr":     func() any { return strings.Repeat("a", 10000) },
+	"nulstr":      func() any { return "a\x00b" },
+	"lonesurr":    func() any { return "\xed\xa0\x80x" }, // an encoded surrogate half
 	"selfref": func() any {
 		s := make([]any, 1)
 		s[0] = s[:0]
